@@ -37,6 +37,17 @@ CHECKS["C06"] = dict(
     note="bounded sizes, seeded sampling; the steady-state clause is decided through the inverse-formulation solves of the solver layer",
     technique="TLA+ predicates evaluated by TLC on lifted builder outputs; reference semantics as tripwire")
 
+CHECKS["C03"] = dict(
+    text="For seeded configurations (9 classes, per-side Dirichlet/Neumann/Robin with face-wise varying arrays, periodic on non-radial axes) the full value arrays after construction, apply_BCs, solvePDE and solveExplicitPDE, the solver's boundary rows, the arrays obtained with (a,b,c) scaled, and plotprofile() are lifted to exact rationals; TLC (FVTraceOps) evaluates the Robin relation with the metric factors of FVBoundary face by face, the periodic wrap, row/ghost consistency, row proportionality to the Robin relation and scale invariance with zero tolerance.",
+    ref="DESIGN.md 5/C03",
+    note="normal difference quotient taken along the coordinate axis (documented convention); periodic rows required on uniform-ended axes; singular BC rows excluded",
+    technique="TLA+ boundary semantics (FVBoundary) + TLC trace validation of lifted ghost values and boundary rows")
+CHECKS["C01"] = dict(
+    text="For seeded closed configurations (coefficients vanishing on the domain boundary, or periodic along uniform-ended axes) the real diffusion/central/upwind matrices and the explicit divergence are lifted to exact rationals and TLC (FVTraceOps) checks that every cellvolume-weighted column sum (ghost columns included) vanishes exactly, i.e. that interior face fluxes cancel in the number domainIntegral() reports; multi-step solver clauses are added by the solver layer.",
+    ref="DESIGN.md 5/C01",
+    note="bounded sizes, seeded sampling; weights are the code's own cellvolume (what domainIntegral uses); SphericalGrid3D additionally checked against midpoint volumes",
+    technique="TLA+ predicates evaluated by TLC on lifted builder outputs (weighted column sums), reference semantics as tripwire")
+
 NOT_APPLICABLE = {
  "C02": "asymptotic convergence order under refinement: no reals/limits in TLA+, exact lifting does not survive solves on refined grids (DESIGN 8)",
 }
